@@ -30,7 +30,8 @@ from .world import OpGuard, Watchdog, World
 
 KNOWN_OPEN = set()
 
-NAMES = ("a", "b", "a", "root", "sub 0", 'q"uote', "back\\slash", '\\"', '"', "\\", "ä ö", "日本", "x\ny", "a", "N1", "0x1", "[b]", "(c)")
+NAMES = ("a", "b", "a", "root", "sub 0", 'q"uote', "back\\slash", '\\"', '"', "\\", "ä ö", "日本", "x\ny", "a", "N1", "0x1", "[b]", "(c)",
+         "<b>", '<a href="x">', "<>", "{a|b}", "a:b", "#1", "%s", "-->")
 # names that are not strings (the exporters render them with str()); written as specs so cfg/ops stay JSON
 PY_NAMES = {"True": True, "1": 1, "0": 0, "False": False, "2.0": 2.0, "2": 2, "None": None, "b'x'": b"x", "b'\\xff'": b"\xff", "(1, 2)": (1, 2)}
 FORGOTTEN = object()
